@@ -95,7 +95,7 @@ func (w *World) earlyExits(pkgPrefixes ...string) []earlyExit {
 			}
 			a := newAstAtoms()
 			if cond != nil {
-				a = w.exprAtoms(fi, cond)
+				a = w.exprAtomsDeep(fi, cond)
 			}
 			for f := range a.Fields {
 				parts = append(parts, f)
